@@ -25,6 +25,7 @@ type K struct {
 	SHeight *Term
 	MyId *Term // tic.myMemberId
 	leaderFns []*ssa.Function
+	MissingLatch []string
 }
 
 func (a *Analyzer) Anchors() *K {
@@ -47,12 +48,32 @@ func (a *Analyzer) Anchors() *K {
 	k.SHeight = Field(k.State, "height")
 	k.MyId = Field(k.TIC, "myMemberId")
 	// anchored struct fields must exist
-	a.requireField("services/termincommittee.TermInCommittee", "committeeMembers", "myMemberId", "preparedLocally", "committedBlock", "latestViewThatProcessedVCMOrNVM", "State")
+	a.requireField("services/termincommittee.TermInCommittee", "committeeMembers", "myMemberId", "State")
+	// latch fields: their absence is a finding of the rules that need them (G3, G5, S3), not a broken analysis
+	for _, f := range []string{"preparedLocally", "committedBlock", "latestViewThatProcessedVCMOrNVM"} {
+		if !a.hasField("services/termincommittee.TermInCommittee", f) {
+			k.MissingLatch = append(k.MissingLatch, f)
+		}
+	}
 	a.requireField("state.State", "height", "view", "Contexts")
 	a.requireField("state.ViewContexts", "hvToContext", "newestHvCanceledOlder", "shutdown")
 	a.requireField("services/rawmessagesfilter.RawMessageFilter", "futureCache", "consensusMessagesHandler", "instanceId", "myMemberId")
 	k.leaderFns = a.findLeaderFns()
 	return k
+}
+
+func (a *Analyzer) hasField(typ string, field string) bool {
+	n := a.P.LibType(typ)
+	st, ok := n.Underlying().(*types.Struct)
+	if !ok {
+		return false
+	}
+	for i := 0; i < st.NumFields(); i++ {
+		if st.Field(i).Name() == field {
+			return true
+		}
+	}
+	return false
 }
 
 func (a *Analyzer) requireField(typ string, fields ...string) {
